@@ -59,6 +59,8 @@ func closeScenario(t *testing.T, c closeCase) closeResult {
 	}
 	if c.Load == "lossy" {
 		sc.RandFault = &RandFault{DropPct: 40, DupPct: 10, DelayPct: 10, MaxDelay: 800 * time.Millisecond}
+		// the property is about connections that exist: the handshake packets pass unharmed
+		sc.Faults = [2][]Fault{cleanHS(0, nil), cleanHS(1, nil)}
 	}
 	out := closeResult{PeerFailed: -1}
 	res := RunGbnBody(t, sc, func(sim *Sim, conns [2]*gbn.GoBackNConn, res *GbnResult) {
